@@ -1,0 +1,55 @@
+//go:build verif
+
+// Contracts for the verification machinery in /verif (comment-only; never compiled into a binary).
+// Property C09: reclaimed (batch/mid) capacity is never over-promised.
+
+package batchresource
+
+//@ uses pkg/util, pkg/slo-controller/noderesource/plugins/util
+
+// Stale or missing node metrics: degrade.
+//@ func (*Plugin).isDegradeNeeded [C09]
+//@   requires strategy != nil && strategy.DegradeTimeMinutes != nil
+//@   ensures #missing: nodeMetric == nil || nodeMetric.Status.UpdateTime == nil ==> result
+//@   ensures #stale: result <==> (nodeMetric == nil || nodeMetric.Status.UpdateTime == nil || Clock.Now() > nodeMetric.Status.UpdateTime.Time + deref(strategy.DegradeTimeMinutes) * 60000000000)
+//@   modifies nothing
+
+// Reset: every batch resource is marked Reset and carries no quantity.
+//@ func (*Plugin).Reset [C09]
+//@   ensures #len: len(result) == len(ResourceNames)
+//@   ensures #reset: forall j int :: 0 <= j && j < len(result) ==> result[j].Reset && result[j].Quantity == nil && result[j].ZoneQuantity == nil && result[j].Name == ResourceNames[j]
+//@   modifies nothing
+//@   loop 1 invariant 0 <= $i && $i <= len(ResourceNames) && len(items) == len(ResourceNames)
+//@   loop 1 invariant forall j int :: 0 <= j && j < $i ==> items[j].Reset && items[j].Quantity == nil && items[j].ZoneQuantity == nil && items[j].Name == ResourceNames[j]
+
+//@ spec func stale(s *configuration.ColocationStrategy, nm *slov1alpha1.NodeMetric) bool = nm == nil || nm.Status.UpdateTime == nil || Clock.Now() > nm.Status.UpdateTime.Time + deref(s.DegradeTimeMinutes) * 60000000000
+
+//@ func (*Plugin).degradeCalculate [C09]
+//@   ensures #len: len(result) == len(ResourceNames)
+//@   ensures #reset: forall j int :: 0 <= j && j < len(result) ==> result[j].Reset && result[j].Quantity == nil && result[j].ZoneQuantity == nil && result[j].Name == ResourceNames[j]
+//@   modifies nothing
+
+// Stale or missing node metrics withdraw the resource: every item returned is a Reset without a quantity, no old value survives.
+//@ func (*Plugin).Calculate [C09]
+//@   requires strategy != nil ==> strategy.DegradeTimeMinutes != nil
+//@   let argsOK = strategy != nil && node != nil && podList != nil && resourceMetrics != nil && resourceMetrics.NodeMetric != nil
+//@   ensures #args: !old(argsOK) ==> result0 == nil && result1 != nil
+//@   ensures #degrade: old(argsOK && stale(strategy, resourceMetrics.NodeMetric)) ==> result1 == nil && len(result0) == len(ResourceNames) && (forall j int :: 0 <= j && j < len(result0) ==> result0[j].Reset && result0[j].Quantity == nil && result0[j].ZoneQuantity == nil && result0[j].Name == ResourceNames[j])
+
+// Node-level aggregation. The three high-priority sums are built over the pod list; the property demands that a pod which has
+// not reported metrics yet is charged at its request in ALL of them. Stated as relations between the accumulators that every
+// iteration must preserve (all summands are per-pod: request, usage, max(request, usage)):
+//   dominance : sum of max(request, usage) >= sum of requests      (a pod without metric contributes its request to both)
+//   nometrics : while no processed pod has a metric, used == request and maxUsedReq == request
+//@ func (*Plugin).calculateOnNode [C09]
+//@   requires strategy != nil && node != nil && podList != nil && resourceMetrics != nil && resourceMetrics.NodeMetric != nil && resourceMetrics.NodeMetric.Status.NodeMetric != nil
+//@   requires strategy.CPUReclaimThresholdPercent != nil && strategy.MemoryReclaimThresholdPercent != nil
+// the strategy passed sloconfig.IsColocationStrategyValid (see resutil.validBatchPct)
+//@   requires resutil.validBatchPct(strategy)
+// package-level priority ranges of apis/extension keep their initial values (needed by the C13 contract of GetPodPriorityClassWithDefault)
+//@   requires extension.rangesOK() && extension.DefaultPriorityClass == extension.PriorityNone
+// koordlet reports non-negative pod usage
+//@   requires forall pm *slov1alpha1.PodMetricInfo, n corev1.ResourceName :: {val(pm.PodUsage.ResourceList, n)} val(pm.PodUsage.ResourceList, n) >= 0
+//@   loop 2 invariant #distinct: podMetricMap != nil && podMetricDanglingMap != nil && podMetricMap != podMetricDanglingMap
+//@   loop 2 invariant #dominance: forall n corev1.ResourceName :: val(podsHPMaxUsedReq, n) >= val(podsHPRequest, n)
+//@   loop 2 invariant #nometrics: (forall k string :: !has(podMetricMap, k)) ==> (forall n corev1.ResourceName :: val(podsHPUsed, n) == val(podsHPRequest, n) && val(podsHPMaxUsedReq, n) == val(podsHPRequest, n))
